@@ -40,6 +40,8 @@ FILTERS = {'id': None, 'dup': dup, 'drop': drop}
 
 
 def drain(fd, settle=0.005):
+    if fd is None:
+        return b''
     out = b''
     while True:
         r, _, _ = _select.select([fd], [], [], settle)
@@ -193,6 +195,227 @@ def replay(args):
     return res
 
 
+# ---- payload runs: all byte values, multi-byte text, bursts larger than one read, bytes / unicode objects ----------------
+class Blocked(Exception):
+    pass
+
+
+def payload_case(args):
+    """One real interact() with scripted injections: cfg = {encoding, errors, poll, log, end: 'escape'|'exit',
+    pending: hex, plan: [[output hex, keystrokes hex], ...]}.  The oracle is the property itself: the user sees the pending
+    text and then every byte the child wrote, the child gets every byte typed before the escape, unchanged and in order."""
+    workdir, cfg = args
+    res = {'error': None}
+    w = None
+    umaster = uslave = None
+    saved_select = pexpect.pty_spawn.select_ignore_interrupts
+    saved_poll = pexpect.pty_spawn.poll_ignore_interrupts
+    saved_stdout = sys.stdout
+    saved_alarm = signal.getsignal(signal.SIGALRM)
+    try:
+        import codecs, io
+        umaster, uslave = pty.openpty()
+        state = {'to_user': b'', 'to_child': b'', 'ended': False, 'exited': False}
+
+        class Out(object):
+            pending = b''
+
+            class buffer(object):
+                @staticmethod
+                def write(b):
+                    Out.pending += b
+                    return len(b)
+
+            @staticmethod
+            def write(s_):
+                Out.pending += s_.encode(cfg['encoding'] or 'latin-1', 'surrogateescape') if isinstance(s_, str) else s_
+                return len(s_)
+
+            @staticmethod
+            def flush():
+                if Out.pending:
+                    data, Out.pending = Out.pending, b''
+                    os.write(uslave, data)
+        sys.stdout = Out
+        w = PtyWorld(workdir, use_poll=cfg['poll'], encoding=cfg['encoding'])
+        w.close_interposition_only()
+        child = w.child
+        if cfg['encoding']:
+            child.codec_errors = cfg['errors']
+            child._decoder = codecs.getincrementaldecoder(cfg['encoding'])(cfg['errors'])
+            child._encoder = codecs.getincrementalencoder(cfg['encoding'])(cfg['errors'])
+        logs = None
+        if cfg['log']:
+            logs = (io.StringIO() if cfg['encoding'] else io.BytesIO())
+            child.logfile_read = logs
+        child.STDIN_FILENO = uslave
+        child.STDOUT_FILENO = uslave
+        pend = bytes.fromhex(cfg['pending'])
+        if pend:
+            os.write(w.slave, pend)
+            try:
+                child.expect_exact(['\xff\xfe\xfd' if cfg['encoding'] else b'\xff\xfe\xfd'], timeout=0)
+            except pexpect.TIMEOUT:
+                pass
+        plan = [(bytes.fromhex(o), bytes.fromhex(k)) for o, k in cfg['plan']]
+        all_out = b''.join(o for o, k in plan)
+        all_keys = b''.join(k for o, k in plan)
+
+        def sweep():
+            state['to_user'] += drain(umaster, 0)
+            if w.slave is not None:
+                state['to_child'] += drain(w.slave, 0)
+
+        def inject():
+            sweep()
+            if plan:
+                o, k = plan.pop(0)
+                if o:
+                    os.write(w.slave, o)
+                if k:
+                    os.write(umaster, k)
+                return
+            r = saved_select([child.child_fd, uslave], [], [], 0.05)[0]
+            if r or state['ended']:
+                return
+            state['ended'] = True
+            if cfg['end'] == 'escape':
+                os.write(umaster, b'\x1d')
+            else:
+                sweep()
+                w.peer('PeerExit', [0])
+                state['exited'] = True
+
+        def sel(iwtd, owtd, ewtd, timeout=None):
+            if set(iwtd) == {child.child_fd, uslave}:
+                inject()
+                return saved_select(iwtd, owtd, ewtd, 5.0)
+            return saved_select(iwtd, owtd, ewtd, timeout)
+
+        def pol(fds, timeout=None):
+            if set(fds) == {child.child_fd, uslave}:
+                inject()
+                return saved_poll(fds, 5.0)
+            return saved_poll(fds, timeout)
+        pexpect.pty_spawn.select_ignore_interrupts = sel
+        pexpect.pty_spawn.poll_ignore_interrupts = pol
+        mode0 = termios.tcgetattr(uslave)
+
+        def on_alarm(signum, frame):
+            raise Blocked()
+        signal.signal(signal.SIGALRM, on_alarm)
+        signal.alarm(20)
+        raised = ''
+        try:
+            child.interact(escape_character=(chr(29) if cfg['end'] == 'escape' else None))
+        except Blocked:
+            raised = 'blocked'
+        except Exception as e:
+            raised = '%s: %s' % (type(e).__name__, e)
+        finally:
+            signal.alarm(0)
+            Out.flush()
+            sys.stdout = saved_stdout
+            pexpect.pty_spawn.select_ignore_interrupts = saved_select
+            pexpect.pty_spawn.poll_ignore_interrupts = saved_poll
+        mode1 = termios.tcgetattr(uslave)
+        state['to_user'] += drain(umaster)
+        if w.slave is not None:
+            state['to_child'] += drain(w.slave)
+        want_user = pend + all_out
+        res.update(raised=raised, mode_restored=(mode0 == mode1), unused=len(plan),
+                   user_ok=(state['to_user'] == want_user), child_ok=(state['to_child'] == all_keys),
+                   user_len=len(state['to_user']), want_user_len=len(want_user),
+                   child_len=len(state['to_child']), want_child_len=len(all_keys))
+        if not res['user_ok']:
+            a, b = state['to_user'], want_user
+            i = next((j for j in range(min(len(a), len(b))) if a[j] != b[j]), min(len(a), len(b)))
+            res['user_diff'] = {'at': i, 'got': a[max(0, i - 8):i + 16].hex(), 'want': b[max(0, i - 8):i + 16].hex()}
+        if not res['child_ok']:
+            a, b = state['to_child'], all_keys
+            i = next((j for j in range(min(len(a), len(b))) if a[j] != b[j]), min(len(a), len(b)))
+            res['child_diff'] = {'at': i, 'got': a[max(0, i - 8):i + 16].hex(), 'want': b[max(0, i - 8):i + 16].hex()}
+    except Exception:
+        res['error'] = traceback.format_exc()
+    finally:
+        signal.alarm(0)
+        signal.signal(signal.SIGALRM, saved_alarm)
+        sys.stdout = saved_stdout
+        pexpect.pty_spawn.select_ignore_interrupts = saved_select
+        pexpect.pty_spawn.poll_ignore_interrupts = saved_poll
+        for fd in (umaster, uslave):
+            try:
+                if fd is not None:
+                    os.close(fd)
+            except OSError:
+                pass
+        if w is not None:
+            try:
+                w.close()
+            except Exception:
+                pass
+    return res
+
+
+def judge_payload(out):
+    if out['raised'] == 'blocked':
+        return ('C15:interact-blocks-with-output-or-keystrokes-undelivered', out)
+    if out['raised']:
+        return ('C15:interact-raised', out)
+    if not out['user_ok']:
+        return ('C15:child-output-did-not-reach-the-user-unchanged-and-in-order', out)
+    if not out['child_ok']:
+        return ('C15:keystrokes-did-not-reach-the-child-unchanged-and-in-order', out)
+    if not out['mode_restored']:
+        return ('C15:terminal-mode-not-restored', out)
+    return None
+
+
+def payload_cases(rng, quick):
+    allb = bytes(range(256))
+    keyb = bytes(x for x in range(256) if x != 0x1d)
+    text = 'café € \U0001f600 中文 '.encode('utf-8')
+    invalid = b'A\xffB caf\xe9 \xe2\x82 tail \xc3'
+    outs = [allb, allb * 4, text * 3, invalid, b'x' * 999, b'y' * 1000, b'z' * 1001, b'q' * 2000, b'r' * 3000,
+            (text * 200)[:4000], (allb * 20)[:5000], b'']
+    keys = [b'', keyb, b'k' * 1000, b'j' * 1001, (keyb * 9)[:2000], 'héllo'.encode('utf-8'), b'ok\r']
+    cases = []
+    confs = [(None, 'strict'), ('utf-8', 'strict'), ('utf-8', 'replace'), ('utf-8', 'ignore')]
+
+    def mk(enc, err, poll, log, end, pending, plan):
+        return {'encoding': enc, 'errors': err, 'poll': poll, 'log': log, 'end': end, 'pending': pending.hex(),
+                'plan': [[o.hex(), k.hex()] for o, k in plan]}
+    i = 0
+    for o in outs:
+        for enc, err in confs:
+            i += 1
+            k = keys[i % len(keys)]
+            end = 'escape' if i % 3 else 'exit'
+            if end == 'exit':
+                k = k  # with escape_character None every byte value may be typed
+            # one injection, then the same output again after the keystrokes were delivered (two bursts)
+            cases.append(mk(enc, err, bool(i % 2), False, end, b'pending> ' if i % 4 == 0 else b'', [(o, k), (o[:17], b''), (b'', k[:5])]))
+    for k in keys:
+        for enc, err in confs[:2]:
+            i += 1
+            cases.append(mk(enc, err, bool(i % 2), False, 'escape', b'', [(b'', k), (b'out', b''), (b'', k)]))
+    # with a log file: text the encoding can represent (what an undecodable byte does to a strict log is C11's business)
+    for enc, err in confs:
+        cases.append(mk(enc, err, False, True, 'escape', b'', [(text * 3, b'a'), (b'w' * 1000, b'b')]))
+    for _ in range(40 if quick else 1500):
+        enc, err = rng.choice(confs)
+        plan = []
+        for _ in range(rng.randint(1, 4)):
+            size = rng.choice([0, 1, 5, 999, 1000, 1001, 1999, 2000, 2001, 3000, rng.randint(1, 4500)])
+            src = rng.choice([allb, text, invalid, b'abc\r\n'])
+            o = (src * (size // len(src) + 1))[:size]
+            ksz = rng.choice([0, 0, 1, 3, 1000, rng.randint(1, 2500)])
+            ksrc = rng.choice([keyb, b'typed ', 'kéy'.encode('utf-8')])
+            plan.append((o, (ksrc * (ksz // len(ksrc) + 1))[:ksz]))
+        cases.append(mk(enc, err, rng.random() < 0.5, False, rng.choice(['escape', 'escape', 'exit']), rng.choice([b'', b'left over ']), plan))
+    return cases
+
+
 def paths(g, rng, cap):
     """every path init -> done of the graph as (init state, [(k, n) per Iter], ends by child exit, final state)"""
     out = []
@@ -277,6 +500,29 @@ def run(ctx):
             ctx.fail(clause, case, detail=detail, signature={'escmode': case['init']['escmode'],
                                                              'repeated_escape': case['init']['keys'].count('E') > 1,
                                                              'trimmed_pending': len(case['init']['sbufAtStart']) < len(case['init']['pendAtStart'])})
+    # payload runs
+    pcs = payload_cases(random.Random(ctx.seed * 43 + 1), ctx.quick())
+    t0 = time.time()
+    with Pool(12) as pool:
+        pouts = pool.map(payload_case, [(ctx.work, c) for c in pcs], chunksize=2)
+    pbad = []
+    for c, o in zip(pcs, pouts):
+        if o['error']:
+            raise tlc.TLCError('interact payload run crashed: %s\n%s' % ({k: v for k, v in c.items() if k != 'plan'}, o['error']))
+        j = judge_payload(o)
+        if j:
+            pbad.append((c, j))
+    pbad = pbad[:60]
+    with Pool(12) as pool:
+        pagain = pool.map(payload_case, [(ctx.work, c) for c, j in pbad for _ in range(2)], chunksize=1)
+    for bi, (c, j) in enumerate(pbad):
+        again = [judge_payload(o) if not o['error'] else None for o in pagain[2 * bi:2 * bi + 2]]
+        if all(x and x[0] == j[0] for x in again):
+            ctx.fail(j[0], {'payload': c}, detail={k: v for k, v in j[1].items() if k != 'error'},
+                     signature={'encoding': c['encoding'], 'errors': c['errors'], 'end': c['end']})
+    ctx.note('%d payload runs of the real interact() (all 256 byte values, multi-byte and undecodable text, bursts of 999/1000/1001/2000/3000/5000 '
+             'bytes in both directions, bytes and utf-8 objects with strict/replace/ignore, select and poll, escape and child exit) in %.0fs' % (
+                 len(pcs), time.time() - t0))
     # binding self-test: a wrong expectation must be noticed
     good = [(ps[i], outs[i]) for i in range(len(ps)) if not judge(outs[i], ps[i][3], ps[i][0]) and ps[i][3]['toChild']]
     if not good:
@@ -292,7 +538,7 @@ def run(ctx):
         'states': res['distinct'], 'transitions': g.n_edges(), 'traces_validated_against_impl': len(jobs),
         'samples': [{'case': {'init': {k: ps[i][0][k] for k in ('keys', 'outp', 'pendAtStart', 'escmode', 'infil', 'outfil')}, 'iters': ps[i][1]},
                      'observed': outs[i]} for i in (0, len(ps) // 2)],
-        'evaluations': len(jobs), 'distinct_nontrivial': nontrivial,
+        'evaluations': len(jobs) + len(pcs), 'distinct_nontrivial': nontrivial, 'payload_runs': len(pcs),
         'rule': 'one replay per path of the TLC state graph (configuration x cutting of keystrokes and output into loop iterations); '
                 'non-trivial = at least one loop iteration with data', 'exhaustive': not ctx.quick(),
         'deviation_sensitivity': sens, 'known_findings_hit': nknown,
@@ -320,6 +566,14 @@ def judge(out, fin, init):
 def do_replay(ctx):
     d = json.load(open(ctx.replay))
     c = d['case']
+    if 'payload' in c:
+        out = payload_case((ctx.work, c['payload']))
+        print(json.dumps(out, indent=1))
+        j = judge_payload(out) if not out['error'] else ('error', out)
+        if j:
+            print('VIOLATION property=C15 replay=%s' % ctx.replay)
+            return 1
+        return 0
     init = dict(c['init'])
     out = replay((ctx.work, init, [tuple(x) for x in c['iters']], c['by_exit'], c.get('poll', False)))
     print(json.dumps(out, indent=1))
